@@ -1,5 +1,162 @@
-From Coq Require Import List Arith.
-From SK Require Import model.C13_Model proof.C13_Proof.
-Theorem C13_memb_spec : forall i l, memb i l = true <-> In i l.
-Proof. exact memb_spec. Qed.
-Print Assumptions C13_memb_spec.
+(** C13 -- clustering partitions graphs exactly into isomorphism classes.
+    Statements only; every proof is [exact <lemma of proof/C13_*.v>].
+
+    The functions are those of model/C13_Model.v which the correspondence evaluates on every run
+    ([run] -> [step] -> [gc_iterative], [gc_fit], [lib_check], [cluster], [fit]).
+    Premises shared by the theorems (the oracle contract of the isomorphism test, monitored by the harness:
+    networkx VF2 with element/charge/order matchers is compared with a brute-force reference on every pair):
+      [iso] is a decidable equivalence on the items satisfying [D] (e.g. well-formed graphs);
+      the pre-grouping attribute AS THE CODE READS IT ([gc_key mode]: nothing | the string | the sorted list)
+      is invariant under [iso].
+    Nothing else is assumed about [iso]: in particular the theorems cover the transitivity shortcut of the code
+    (an item is compared only with the FIRST member of each class / with one stored template per class). *)
+From Coq Require Import List NArith ZArith Bool Arith Permutation.
+From SK Require Import lib.C13_Partition model.C13_Model proof.C13_Proof proof.C13_More.
+Import ListNotations.
+
+(** 1. GraphCluster.fit / iterative_cluster: every item gets exactly one class (the list of classes has the length
+    of the data, every entry is a number below the number of clusters, and rule_to_cluster contains the pair), and
+    two items share a class IFF they are isomorphic. *)
+Theorem C13_partition :
+  forall (iso : item -> item -> bool) (mode : attr_mode) (D : item -> Prop),
+  (forall x, D x -> iso x x = true) ->
+  (forall x y, D x -> D y -> iso x y = true -> iso y x = true) ->
+  (forall x y z, D x -> D y -> D z -> iso x y = true -> iso y z = true -> iso x z = true) ->
+  (forall x y, D x -> D y -> iso x y = true -> gc_key mode x = gc_key mode y) ->
+  forall data : list item, Forall D data ->
+  length (gc_fit iso mode data) = length data /\
+  forall i j x y, nth_error data i = Some x -> nth_error data j = Some y ->
+  exists ci cj,
+    nth_error (gc_fit iso mode data) i = Some (Some ci) /\
+    nth_error (gc_fit iso mode data) j = Some (Some cj) /\
+    ci < length (fst (gc_iterative iso mode data)) /\
+    In (i, ci) (snd (gc_iterative iso mode data)) /\
+    (ci = cj <-> iso x y = true).
+Proof. exact partition_full. Qed.
+Print Assumptions C13_partition.
+
+(** the [clusters] list and the [rule_to_cluster] dictionary returned by iterative_cluster describe the same
+    assignment, whatever [iso] is: cluster number c lists exactly the indices mapped to c *)
+Theorem C13_clusters_agree :
+  forall (iso : item -> item -> bool) (mode : attr_mode) (data : list item) (j c : nat),
+  In (j, c) (snd (gc_iterative iso mode data)) <->
+  In j (nth c (fst (gc_iterative iso mode data)) []) /\ c < length (fst (gc_iterative iso mode data)).
+Proof. exact clusters_sync_in. Qed.
+Print Assumptions C13_clusters_agree.
+
+(** 2. the partition does not depend on the order of the list: for every permutation of the data (duplicates
+    allowed; positions i, j / i', j' are any positions holding the same two items) the two items share a class in
+    one run iff they do in the other, and the number of classes is the same. *)
+Theorem C13_order_independent :
+  forall (iso : item -> item -> bool) (mode : attr_mode) (D : item -> Prop),
+  (forall x, D x -> iso x x = true) ->
+  (forall x y, D x -> D y -> iso x y = true -> iso y x = true) ->
+  (forall x y z, D x -> D y -> D z -> iso x y = true -> iso y z = true -> iso x z = true) ->
+  (forall x y, D x -> D y -> iso x y = true -> gc_key mode x = gc_key mode y) ->
+  forall data data' : list item, Permutation data data' -> Forall D data ->
+  length (fst (gc_iterative iso mode data)) = length (fst (gc_iterative iso mode data')) /\
+  forall i j i' j' x y,
+    nth_error data i = Some x -> nth_error data j = Some y ->
+    nth_error data' i' = Some x -> nth_error data' j' = Some y ->
+    (nth_error (gc_fit iso mode data) i = nth_error (gc_fit iso mode data) j <->
+     nth_error (gc_fit iso mode data') i' = nth_error (gc_fit iso mode data') j').
+Proof. exact order_independent. Qed.
+Print Assumptions C13_order_independent.
+
+(** 3. BatchCluster.lib_check: from templates on which "same class" and "isomorphic representatives" coincide, a new
+    item goes into the class of its isomorphic representative (templates unchanged), or -- when no representative is
+    isomorphic -- into the fresh class max+1 (-1+1 = 0 without templates), which no template uses, and is appended
+    as the representative of that class; the templates stay coherent. *)
+Theorem C13_incremental :
+  forall (iso : item -> item -> bool) (mode : attr_mode) (D : item -> Prop),
+  (forall x, D x -> iso x x = true) ->
+  (forall x y, D x -> D y -> iso x y = true -> iso y x = true) ->
+  (forall x y z, D x -> D y -> D z -> iso x y = true -> iso y z = true -> iso x z = true) ->
+  (forall x y, D x -> D y -> iso x y = true -> gc_key mode x = gc_key mode y) ->
+  forall (x : item) (ts : list template),
+  (Forall D (map fst ts) /\
+   forall t t', In t ts -> In t' ts -> (iso (fst t) (fst t') = true <-> snd t = snd t')) ->
+  D x ->
+  let '(c, ts') := lib_check iso mode x ts in
+  (Forall D (map fst ts') /\
+   forall t t', In t ts' -> In t' ts' -> (iso (fst t) (fst t') = true <-> snd t = snd t')) /\
+  (forall t, In t ts -> iso (fst t) x = true -> c = snd t /\ ts' = ts) /\
+  ((forall t, In t ts -> iso (fst t) x = false) ->
+     c = (fold_right Z.max (-1) (map snd ts) + 1)%Z /\ ~ In c (map snd ts) /\ ts' = ts ++ [(x, c)]).
+Proof. exact incremental. Qed.
+Print Assumptions C13_incremental.
+
+(** ... and a whole run of BatchCluster.cluster (templates carried from item to item): templates only grow and stay
+    coherent, every item gets one class, two items of the run share a class iff they are isomorphic, and an item
+    has the class of a final template iff it is isomorphic to that representative. *)
+Theorem C13_incremental_run :
+  forall (iso : item -> item -> bool) (mode : attr_mode) (D : item -> Prop),
+  (forall x, D x -> iso x x = true) ->
+  (forall x y, D x -> D y -> iso x y = true -> iso y x = true) ->
+  (forall x y z, D x -> D y -> D z -> iso x y = true -> iso y z = true -> iso x z = true) ->
+  (forall x y, D x -> D y -> iso x y = true -> gc_key mode x = gc_key mode y) ->
+  forall (data : list item) (ts : list template) (cs : list Z) (ts' : list template),
+  (Forall D (map fst ts) /\
+   forall t t', In t ts -> In t' ts -> (iso (fst t) (fst t') = true <-> snd t = snd t')) ->
+  Forall D data ->
+  cluster iso mode data ts = (cs, ts') ->
+  (Forall D (map fst ts') /\
+   forall t t', In t ts' -> In t' ts' -> (iso (fst t) (fst t') = true <-> snd t = snd t')) /\
+  (exists ext, ts' = ts ++ ext) /\ length cs = length data /\
+  (forall i j x y c c', nth_error data i = Some x -> nth_error data j = Some y ->
+      nth_error cs i = Some c -> nth_error cs j = Some c' -> (c = c' <-> iso x y = true)) /\
+  (forall i x c t, nth_error data i = Some x -> nth_error cs i = Some c -> In t ts' ->
+      (c = snd t <-> iso (fst t) x = true)).
+Proof. exact incremental_run. Qed.
+Print Assumptions C13_incremental_run.
+
+(** BatchCluster.fit with starting templates, or over more than one batch, IS that run of lib_check over the whole
+    list (batch boundaries are invisible; templates are carried across batches) *)
+Theorem C13_fit_is_incremental_run :
+  forall (iso : item -> item -> bool) (mode : attr_mode)
+         (data : list item) (ts : list template) (bs : option nat) (picks : list nat),
+  match bs with None => True | Some b => 1 <= b end ->
+  (ts <> [] \/ length (match bs with Some b => chunks b data | None => [data] end) <> 1) ->
+  fit iso mode data ts bs picks = cluster iso mode data ts.
+Proof. exact fit_is_cluster. Qed.
+Print Assumptions C13_fit_is_incremental_run.
+
+(** 4. batched clustering = one-shot clustering (after repair 6f9daf3 both read list attributes as multisets).
+    From no templates, BatchCluster.fit with any batch size and any sampler choices writes the same class NUMBERS as
+    GraphCluster.fit (only reflexivity of the test is needed) ... *)
+Theorem C13_batch_equals_oneshot :
+  forall (iso : item -> item -> bool) (mode : attr_mode)
+         (data : list item) (bs : option nat) (picks : list nat),
+  match bs with None => True | Some b => 1 <= b end ->
+  (forall x, In x data -> iso x x = true) ->
+  fst (fit iso mode data [] bs picks) = map class_z (gc_fit iso mode data).
+Proof. exact batch_equals_oneshot. Qed.
+Print Assumptions C13_batch_equals_oneshot.
+
+(** ... and for ANY arrival order (permutation of the list) the batched run yields the same partition as the
+    one-shot run on the original order. *)
+Theorem C13_batch_any_order :
+  forall (iso : item -> item -> bool) (mode : attr_mode) (D : item -> Prop),
+  (forall x, D x -> iso x x = true) ->
+  (forall x y, D x -> D y -> iso x y = true -> iso y x = true) ->
+  (forall x y z, D x -> D y -> D z -> iso x y = true -> iso y z = true -> iso x z = true) ->
+  (forall x y, D x -> D y -> iso x y = true -> gc_key mode x = gc_key mode y) ->
+  forall (data data' : list item) (bs : option nat) (picks : list nat),
+  Permutation data data' -> Forall D data ->
+  match bs with None => True | Some b => 1 <= b end ->
+  forall i j i' j' x y,
+    nth_error data i = Some x -> nth_error data j = Some y ->
+    nth_error data' i' = Some x -> nth_error data' j' = Some y ->
+    (nth_error (gc_fit iso mode data) i = nth_error (gc_fit iso mode data) j <->
+     nth_error (fst (fit iso mode data' [] bs picks)) i' = nth_error (fst (fit iso mode data' [] bs picks)) j').
+Proof. exact batch_any_order. Qed.
+Print Assumptions C13_batch_any_order.
+
+(** 5. the attribute premise cannot be dropped: with a pre-grouping attribute that is NOT isomorphism-invariant two
+    isomorphic items are separated (this is the documented domain restriction of the property text, not a defect) *)
+Theorem C13_noninvariant_attribute_splits :
+  exists (iso : item -> item -> bool) (data : list item),
+    (forall x y, iso x y = true) /\
+    gc_fit iso AStr data = [Some 0; Some 1].
+Proof. exact noninvariant_attribute_splits. Qed.
+Print Assumptions C13_noninvariant_attribute_splits.
